@@ -539,6 +539,13 @@ class Evaluator:
                 fname = f"{bk}.{f.attr}" if (bk == "this" or (bk.startswith("this.") and all(x.isidentifier() for x in bk.split(".")))) else f"({bk}).{f.attr}"
             elif root in self.this_names:
                 fname = "this." + fname.split(".", 1)[1]  # method of the context / adapted object: parameter name is irrelevant
+            elif isinstance(f.value, ast.Name) and self.const_of is not None:
+                try:
+                    cv_ = self.const_of(root)
+                except KeyError:
+                    cv_ = None
+                if isinstance(cv_, str):
+                    fname = f"({self.ev(f.value).key()}).{f.attr}"  # method of a module-level string constant: the literal's method
         if isinstance(f, ast.Attribute) and f.attr == "group" and len(node.args) == 1 and not node.keywords and isinstance(node.args[0], ast.Constant) \
                 and isinstance(node.args[0].value, int) and not isinstance(node.args[0].value, bool) and node.args[0].value >= 1:
             # match.group(k) is match.groups()[k-1]
